@@ -10,7 +10,11 @@ cd "$WT" || exit 2
 git checkout -q -- .
 LOG=$(mktemp)
 build() { cmake -G Ninja -S "$WT" -B "$WT/_build" >/dev/null 2>&1 && cmake --build "$WT/_build" -j8 >>"$LOG" 2>&1; }
-demo() { g++ -std=c++17 -O1 -I src "$M"/demo.cpp _build/libcoloquinte.so -Wl,-rpath,"$WT/_build" -pthread -o _build/demo_seed >>"$LOG" 2>&1 && timeout 300 ./_build/demo_seed "$WT" >>"$LOG" 2>&1; }
+SANF="-fsanitize=address,undefined -fno-sanitize-recover=all"
+buildsan() { cmake -G Ninja -S "$WT" -B "$WT/_build_san" -DCMAKE_CXX_FLAGS="-O1 -g $SANF -fno-omit-frame-pointer" >/dev/null 2>&1 && cmake --build "$WT/_build_san" --target coloquinte -j8 >>"$LOG" 2>&1; }
+demosan() { buildsan && g++ -std=c++17 -g $SANF -I src "$M"/demo.cpp _build_san/libcoloquinte.so -Wl,-rpath,"$WT/_build_san" -pthread -o _build_san/demo_seed >>"$LOG" 2>&1 && ASAN_OPTIONS=detect_leaks=0 timeout 600 ./_build_san/demo_seed "$WT" >>"$LOG" 2>&1; }
+demo_plain() { g++ -std=c++17 -O1 -I src "$M"/demo.cpp _build/libcoloquinte.so -Wl,-rpath,"$WT/_build" -pthread -o _build/demo_seed >>"$LOG" 2>&1 && timeout 300 ./_build/demo_seed "$WT" >>"$LOG" 2>&1; }
+demo() { if [ "${SEED_SAN:-0}" = 1 ]; then demosan; else demo_plain; fi; }
 git apply --check "$M/patch.diff" || { echo "INVALID: patch does not apply"; exit 1; }
 git apply "$M/patch.diff"
 build || { echo "INVALID: does not build with patch"; tail -5 "$LOG"; git checkout -q -- .; exit 1; }
